@@ -10,6 +10,7 @@ import (
 	"github.com/aperturerobotics/bifrost/link"
 	"github.com/aperturerobotics/bifrost/peer"
 	"github.com/aperturerobotics/bifrost/transport"
+	"github.com/pkg/errors"
 	"github.com/quic-go/quic-go"
 	"github.com/sirupsen/logrus"
 )
@@ -163,6 +164,17 @@ func (t *Transport) DialPeer(ctx context.Context, peerID peer.ID, as string) (li
 	lnk, err := dl.result.Await(ctx)
 	if err != nil {
 		return nil, false, err
+	}
+
+	// the dialer we waited for may have been started for a different peer at the
+	// same address: never report its link as a link to the peer we were asked for.
+	if lnk != nil && len(peerID) != 0 && lnk.GetRemotePeer() != peerID {
+		return nil, false, errors.Errorf(
+			"dialed %s expecting peer %s but the link is with %s",
+			as,
+			peerID.String(),
+			lnk.GetRemotePeer().String(),
+		)
 	}
 
 	return lnk, false, err
